@@ -105,7 +105,13 @@ class Gen:
                  "x+False": ("bin", "add", x, ("const", False)), "1/x": ("bin", "div", ("const", 1), x)}[form]
             return z
         if k == "un":
-            return ("un", rng.choice(["neg", "abs", "abs", "pos"]), self.num(depth - 1))
+            op = rng.choice(["neg", "abs", "abs", "pos"])
+            if op == "abs" and rng.random() < 0.5:   # operand whose interval straddles 0 asymmetrically
+                i = len(self.defs)
+                lo = -rng.randint(2, 6)
+                self.defs.append(dict(idx=i, kind="range", var=f"L{i}", args=[("const", lo), ("const", rng.choice([0.5, 1, 1.5]))]))
+                return ("un", "abs", ("ref", i))
+            return ("un", op, self.num(depth - 1))
         if k == "pow":
             return ("pow", rng.choice([0, 1, 2, 3]), self.num(depth - 1))
         if k == "idx":
@@ -486,6 +492,8 @@ def main():
         ("t-negnone", "(-L0)", "(-L0)", [("L0", "Normal(0, 1)")]),
         ("t-radd", "((1, 2) + M0)", "((1, 2) + M0)", [("M0", "Uniform((3,), (4, 5))")]),
         ("t-raddl", "([1] + M0)", "([1] + M0)", [("M0", "Uniform([2], [3])")]),
+        ("t-abscross", "abs(L0)", "abs(L0)", [("L0", "Range(-3, 1)")]),
+        ("t-abscross2", "abs((L0 - 4))", "abs((L0 - 4))", [("L0", "DiscreteRange(0, 5)")]),
     ]
     tcases = []
     for tid, ex, py, defs in targeted:
@@ -502,6 +510,8 @@ def main():
     tcases[3]["model"], tcases[3]["tau"] = "un neg leaf 0", [0]
     tcases[4]["model"], tcases[4]["tau"] = "bin add const T 2 I 1 I 2 mux 0 2 p const T 1 I 3 p const T 2 I 4 I 5", []
     tcases[5]["model"], tcases[5]["tau"] = "bin add const L 1 I 1 mux 0 2 p const L 1 I 2 p const L 1 I 3", []
+    tcases[6]["model"], tcases[6]["tau"] = "un abs range 0 const I -3 const I 1", []
+    tcases[7]["model"], tcases[7]["tau"] = "un abs bin sub drange 0 const I 0 const I 5 const I 4", []
     cases = tcases + cases
     dcases = [gen_delayed(rng, i) for i in range(ndelayed)]
     for d in dcases:
